@@ -576,6 +576,12 @@ def zoo_cases(ctx, rng=None):
         yield c
     for c in expr_cases(ctx, rng, mk):
         yield c
+    # --- round 5: derived operators (dunder arithmetic, .inverse, .derivative, __getitem__)
+    for c in derived_cases(ctx, rng, mk):
+        yield c
+    # --- round 5: construction options / validation branches no other stream reaches
+    for c in option_cases(ctx, rng, mk):
+        yield c
     # --- round 4: n-d leaves (axis matrices, F-order flattening, n-d sampling) and trees over them
     for c in nd_cases(ctx, rng, mk):
         yield c
@@ -599,6 +605,7 @@ EXPECTED_STRATA = ['diffop/min-axis-2', 'diffop/min-axis-3', 'minimal/matrix-1x1
     ['gate/wavelet-family-' + f for f in ('haar', 'db', 'sym', 'coif', 'bior', 'rbio', 'dmey')] + \
     ['magnitude/weight-' + m for m in ('1e-12', '1e-6', '1', '1e6', '1e12')] + \
     ['magnitude/pair-' + q for q in ('c,c', 'c,2c', 'c,c(1+1e-6)', 'c,c(1+1e-3)')]
+# (+ DERIVED_STRATA of round 5, appended below its definition)
 
 
 def minimal_cases(ctx, rng, mk):
@@ -1197,6 +1204,418 @@ def nd_cases(ctx, rng, mk):
                 ('comp', ('sampling', S, pts2, 'integrate'), sM))
 
 
+DERIVED_STRATA = (
+    ['dunder/' + n for n in ('__add__', '__sub__', '__neg__', '__pos__', '__mul__/operator',
+                             '__mul__/real', '__mul__/complex', '__mul__/vector',
+                             '__rmul__/scalar', '__rmul__/vector', '__rmul__/functional',
+                             '__matmul__', '__rmatmul__', '__pow__', '__truediv__',
+                             '__radd__/affine', '__rsub__/affine', '__add__/scalar-affine')] +
+    ['via/inverse/' + n for n in ('ScalingOperator', 'RealPart', 'ImagPart', 'ComplexEmbedding',
+                                  'MatrixOperator', 'OperatorComp', 'OperatorLeftScalarMult',
+                                  'OperatorRightScalarMult', 'OperatorLeftVectorMult',
+                                  'OperatorRightVectorMult', 'DiagonalOperator',
+                                  'FlatteningOperatorInverse', 'ResizingOperator',
+                                  'ResizingOperatorAdjoint')] +
+    ['via/derivative/' + n for n in ('linear', 'RealPart', 'ImagPart', 'OperatorSum',
+                                     'OperatorComp', 'OperatorPointwiseProduct',
+                                     'OperatorLeftScalarMult', 'OperatorRightScalarMult',
+                                     'OperatorLeftVectorMult', 'OperatorRightVectorMult',
+                                     'FunctionalLeftVectorMult', 'OperatorVectorSum',
+                                     'NormOperator', 'DistOperator', 'PowerOperator',
+                                     'ConstantOperator', 'PartialDerivative', 'Gradient',
+                                     'Divergence', 'Laplacian', 'ResizingOperator',
+                                     'ProductSpaceOperator', 'BroadcastOperator',
+                                     'ReductionOperator', 'DiagonalOperator', 'PointwiseNorm')] +
+    ['via/getitem/' + n for n in ('ProductSpaceOperator-entry', 'ProductSpaceOperator-row',
+                                  'ProductSpaceOperator-row-heterogeneous', 'BroadcastOperator',
+                                  'ReductionOperator', 'DiagonalOperator')])
+
+
+def derived_cases(ctx, rng, mk):
+    """round 5 stream: operators that the code DERIVES from others and that expose an adjoint
+    themselves: the arithmetic dunder methods of `Operator` (what users write: A + B, A - B,
+    2 * A, A * v, A ** 3, A / 2, v @ A ...; compared with the model's expression classes too),
+    `.inverse` of every invertible linear class, `.derivative(x)` of affine / non-linear
+    operators (a linear operator with an adjoint), and `__getitem__` of the block operators.
+    Every result goes through the full adjoint oracle."""
+    odl = odl_()
+    from odl.operator import operator as opm
+    S, C = odl.rn(3, weighting=2.0), odl.cn(3, weighting=2.0)
+    D = odl.uniform_discr(0, 2, 4)
+    D2 = odl.uniform_discr([0, 0], [1, 1.5], (2, 3))
+    W2 = odl.rn(2)
+    M = rand_mat(rng, 3, 3)
+    Mc = rand_mat(rng, 3, 3, True)
+    v, vc = rand_el(rng, S, nz=True), rand_el(rng, C, nz=True)
+    x0 = rand_el(rng, S, nz=True)
+    w = rand_el(rng, W2, nz=True)
+    A = odl.MatrixOperator(M, domain=S, range=S)
+    Ac = odl.MatrixOperator(Mc, domain=C, range=C)
+    B, Bc = odl.MultiplyOperator(v), odl.MultiplyOperator(vc)
+    sA, sAc = ('matrix', M, S, S), ('matrix', Mc, C, C)
+    sB, sBc = ('multiply', S, S, v), ('multiply', C, C, vc)
+    f = odl.InnerProductOperator(v)
+    sf = ('inner', S, v)
+    P = odl.PowerOperator(S, 2)
+    Sc, Sc4 = odl.ScalingOperator(S, 2.0), odl.ScalingOperator(S, 4.0)
+    PS2 = odl.ProductSpace(S, 2)
+    xx = PS2.element([x0, v])
+    try:    # values of the real code used in the model specs of the chain / product rule
+        Ax0, Px0 = A(x0), P(x0)
+    except Exception:  # noqa  (a mutated repo must not crash the generator)
+        Ax0, Px0 = x0, x0
+    # model specs of derivatives: PowerOperator(S, 2).derivative(y) = 2 * MultiplyOperator(y)
+    def sPd(y):
+        return ('lsc', ('multiply', S, S, S.element(y)), 2.0)
+    # invertible with a dyadic inverse: power-of-two diagonal, strictly upper triangular rest
+    Mi = np.triu(M, 1) + np.diag([2.0, 4.0, 0.5])
+
+    def d(stratum, cls, opts, build, spec=None, approx=False):
+        ctx.hit(stratum)
+        return mk(cls, opts, build, spec, approx)
+
+    # --- arithmetic dunder methods (operator.py: Operator.__add__ ... __truediv__)
+    for fld, a, b, vv, sa, sb, SS in (('real', A, B, v, sA, sB, S), ('complex', Ac, Bc, vc, sAc, sBc, C)):
+        o = 'field=' + fld
+        yield d('dunder/__add__', 'Operator.__add__', o, lambda a=a, b=b: a + b, ('sum', sa, sb))
+        yield d('dunder/__sub__', 'Operator.__sub__', o, lambda a=a, b=b: a - b,
+                ('sum', sa, ('lsc', sb, -1)))
+        yield d('dunder/__neg__', 'Operator.__neg__', o, lambda a=a: -a, ('lsc', sa, -1))
+        yield d('dunder/__pos__', 'Operator.__pos__', o, lambda a=a: +a, sa)
+        yield d('dunder/__mul__/operator', 'Operator.__mul__', o + ' by=operator',
+                lambda a=a, b=b: a * b, ('comp', sa, sb))
+        yield d('dunder/__mul__/real', 'Operator.__mul__', o + ' by=real-scalar',
+                lambda a=a: a * 2.0, ('lsc', sa, 2.0))
+        yield d('dunder/__mul__/vector', 'Operator.__mul__', o + ' by=vector',
+                lambda a=a, vv=vv: a * vv, ('rvec', sa, vv, SS))
+        yield d('dunder/__rmul__/scalar', 'Operator.__rmul__', o + ' by=real-scalar',
+                lambda a=a: -0.5 * a, ('lsc', sa, -0.5))
+        yield d('dunder/__rmul__/vector', 'Operator.__rmul__', o + ' by=vector',
+                lambda a=a, vv=vv: vv * a, ('lvec', sa, vv, SS))
+        yield d('dunder/__matmul__', 'Operator.__matmul__', o, lambda a=a, b=b: a @ b,
+                ('comp', sa, sb))
+        yield d('dunder/__rmatmul__', 'Operator.__rmatmul__', o + ' by=vector',
+                lambda a=a, vv=vv: vv @ a, ('lvec', sa, vv, SS))
+        yield d('dunder/__pow__', 'Operator.__pow__', o + ' n=3', lambda a=a: a ** 3,
+                ('comp', sa, ('comp', sa, sa)))
+        yield d('dunder/__pow__', 'Operator.__pow__', o + ' n=1', lambda a=a: a ** 1, sa)
+        yield d('dunder/__truediv__', 'Operator.__truediv__', o, lambda a=a: a / 4.0,
+                ('lsc', sa, 0.25))
+    yield d('dunder/__mul__/complex', 'Operator.__mul__', 'field=complex by=complex-scalar',
+            lambda: Ac * (1 + 2j), ('rsc', sAc, 1 + 2j))
+    yield d('dunder/__rmul__/scalar', 'Operator.__rmul__', 'field=complex by=complex-scalar',
+            lambda: (1 - 2j) * Ac, ('lsc', sAc, 1 - 2j))
+    yield d('dunder/__rmul__/functional', 'Operator.__rmul__', 'functional by=vector-of-other-space',
+            lambda: w * f, ('flv', sf, w, W2))
+    yield d('dunder/__radd__/affine', 'Operator.__radd__', 'affine vector+operator', lambda: v + A)
+    yield d('dunder/__rsub__/affine', 'Operator.__rsub__', 'affine vector-operator', lambda: v - A)
+    yield d('dunder/__add__/scalar-affine', 'Operator.__add__', 'affine operator+scalar',
+            lambda: A + 2.0)
+    yield d('via/derivative/OperatorVectorSum', 'OperatorVectorSum.derivative', 'of=vector+operator',
+            lambda: (v + A).derivative(x0), sA)
+    yield d('via/derivative/OperatorVectorSum', 'OperatorVectorSum.derivative', 'of=vector-operator',
+            lambda: (v - A).derivative(x0), ('lsc', sA, -1))
+
+    # --- .inverse of linear operators: the inverse is itself an operator with an adjoint
+    inv = [
+        ('ScalingOperator', 'real', lambda: Sc.inverse, ('scaling', S, 0.5)),
+        ('ScalingOperator', 'complex', lambda: odl.ScalingOperator(C, 1 + 1j).inverse,
+         ('scaling', C, 0.5 - 0.5j)),
+        ('RealPart', 'complex-space', lambda: odl.RealPart(C).inverse, None),
+        ('RealPart', 'real-space', lambda: odl.RealPart(S).inverse, None),
+        ('ImagPart', 'complex-space', lambda: odl.ImagPart(C).inverse, None),
+        ('ComplexEmbedding', 'real-space s=1', lambda: odl.ComplexEmbedding(S, 1.0).inverse, None),
+        ('ComplexEmbedding', 'real-space s=2i', lambda: odl.ComplexEmbedding(S, 2j).inverse, None),
+        ('ComplexEmbedding', 'real-space s=1+i', lambda: odl.ComplexEmbedding(S, 1 + 1j).inverse, None),
+        ('ComplexEmbedding', 'complex-space s=1+i', lambda: odl.ComplexEmbedding(C, 1 + 1j).inverse, None),
+        ('MatrixOperator', '1d', lambda: odl.MatrixOperator(Mi, domain=S, range=S).inverse, None),
+        ('MatrixOperator', 'nd axis=1',
+         lambda: odl.MatrixOperator(Mi, domain=odl.rn((2, 3), weighting=2.0), axis=1).inverse, None),
+        ('OperatorComp', 'scaling o scaling', lambda: opm.OperatorComp(Sc, Sc4).inverse,
+         ('comp', ('scaling', S, 0.25), ('scaling', S, 0.5))),
+        ('OperatorLeftScalarMult', 's=4', lambda: opm.OperatorLeftScalarMult(Sc, 4.0).inverse,
+         ('lsc', ('scaling', S, 0.5), 0.25)),
+        ('OperatorRightScalarMult', 's=4', lambda: opm.OperatorRightScalarMult(Sc, 4.0).inverse,
+         ('lsc', ('scaling', S, 0.5), 0.25)),
+        ('OperatorLeftVectorMult', 'scaling', lambda: opm.OperatorLeftVectorMult(Sc, v).inverse, None),
+        ('OperatorRightVectorMult', 'scaling', lambda: opm.OperatorRightVectorMult(Sc, v).inverse, None),
+        ('DiagonalOperator', 'scalings', lambda: odl.DiagonalOperator(Sc, Sc4).inverse,
+         ('blocks', 'diag', PS2, PS2, [(0, 0, ('scaling', S, 0.5)), (1, 1, ('scaling', S, 0.25))])),
+        ('FlatteningOperatorInverse', 'order=F',
+         lambda: odl.FlatteningOperator(D2, 'F').inverse.inverse, ('flatten', D2, 'F')),
+        ('ResizingOperator', 'grow', lambda: odl.ResizingOperator(D, ran_shp=(6,)).inverse, None),
+        ('ResizingOperatorAdjoint', 'grow',
+         lambda: odl.ResizingOperator(D, ran_shp=(6,)).adjoint.inverse, None),
+    ]
+    for cls, o, build, spec in inv:
+        yield d('via/inverse/' + cls, cls + '.inverse', 'of=' + o, build, spec)
+
+    # --- .derivative(x): linear operators return themselves, affine / non-linear ones a linear
+    #     operator that exposes an adjoint
+    PD = odl.ProductSpace(D, 2)
+    der = [
+        ('linear', 'MatrixOperator', lambda: A.derivative(x0), sA),
+        ('RealPart', 'complex-space', lambda: odl.RealPart(C).derivative(vc), ('realpart', C)),
+        ('ImagPart', 'complex-space', lambda: odl.ImagPart(C).derivative(vc), ('imagpart', C)),
+        ('OperatorSum', 'linear+power', lambda: opm.OperatorSum(A, P).derivative(x0), ('sum', sA, sPd(x0))),
+        ('OperatorComp', 'linear o power', lambda: opm.OperatorComp(A, P).derivative(x0), ('comp', sA, sPd(x0))),
+        ('OperatorComp', 'power o linear', lambda: opm.OperatorComp(P, A).derivative(x0), ('comp', sPd(Ax0), sA)),
+        ('OperatorPointwiseProduct', 'power . linear',
+         lambda: opm.OperatorPointwiseProduct(P, A).derivative(x0),
+         # product rule: A(x0) * P'(x0) + P(x0) * A
+         ('sum', ('lvec', sPd(x0), Ax0, S), ('lvec', sA, Px0, S))),
+        ('OperatorLeftScalarMult', 'power', lambda: opm.OperatorLeftScalarMult(P, 2.0).derivative(x0), ('lsc', sPd(x0), 2.0)),
+        ('OperatorRightScalarMult', 'power', lambda: opm.OperatorRightScalarMult(P, 2.0).derivative(x0), ('lsc', sPd(2.0 * x0), 2.0)),
+        ('OperatorLeftVectorMult', 'power', lambda: opm.OperatorLeftVectorMult(P, v).derivative(x0), ('lvec', sPd(x0), v, S)),
+        ('OperatorRightVectorMult', 'power', lambda: opm.OperatorRightVectorMult(P, v).derivative(x0), ('rvec', sPd(v * x0), v, S)),
+        ('FunctionalLeftVectorMult', 'norm',
+         lambda: opm.FunctionalLeftVectorMult(odl.NormOperator(S), w).derivative(x0), None),
+        ('NormOperator', 'weighted', lambda: odl.NormOperator(S).derivative(x0), None),
+        ('DistOperator', 'weighted', lambda: odl.DistOperator(v).derivative(x0 + 4 * S.one()), None),
+        ('PowerOperator', 'p=2', lambda: P.derivative(x0), sPd(x0)),
+        ('PowerOperator', 'p=3', lambda: odl.PowerOperator(S, 3).derivative(x0), None),
+        ('ConstantOperator', 'vector', lambda: odl.ConstantOperator(v).derivative(x0), ('zero', S, S)),
+        ('PartialDerivative', 'pad_const=1',
+         lambda: odl.PartialDerivative(D, 0, pad_mode='constant', pad_const=1).derivative(D.one()),
+         ('partialderiv', D, 0, 'forward', 'constant')),
+        ('Gradient', 'pad_const=1',
+         lambda: odl.Gradient(D2, pad_mode='constant', pad_const=1).derivative(D2.one()),
+         ('gradient', D2, odl.ProductSpace(D2, 2), 'forward', 'constant')),
+        ('Divergence', 'pad_const=1',
+         lambda: odl.Divergence(range=D2, pad_mode='constant', pad_const=1).derivative(None),
+         ('divergence', D2, odl.ProductSpace(D2, 2), 'forward', 'constant')),
+        ('Laplacian', 'pad_const=1',
+         lambda: odl.Laplacian(D2, pad_mode='constant', pad_const=1).derivative(D2.one()),
+         ('laplacian', D2, 'constant')),
+        ('ResizingOperator', 'pad_const=1',
+         lambda: odl.ResizingOperator(D, ran_shp=(6,), pad_const=1).derivative(D.one()), None),
+        ('ProductSpaceOperator', 'power entry',
+         lambda: odl.ProductSpaceOperator([[A, P], [0, B]]).derivative(xx), None),
+        ('BroadcastOperator', 'power entry', lambda: odl.BroadcastOperator(A, P).derivative(x0), None),
+        ('ReductionOperator', 'power entry', lambda: odl.ReductionOperator(A, P).derivative(xx), None),
+        ('DiagonalOperator', 'power entry', lambda: odl.DiagonalOperator(A, P).derivative(xx), None),
+        ('PointwiseNorm', 'p=2', lambda: odl.PointwiseNorm(PD).derivative(PD.one()), None),
+        ('PointwiseNorm', 'p=3 weighted',
+         lambda: odl.PointwiseNorm(PD, exponent=3, weighting=[1.0, 2.0]).derivative(PD.one()), None),
+    ]
+    for cls, o, build, spec in der:
+        yield d('via/derivative/' + cls, cls + '.derivative', 'of=' + o, build, spec)
+
+    # --- __getitem__ of the block operators
+    R2 = odl.rn(2)
+    Mh = rand_mat(rng, 2, 3)
+    yield d('via/getitem/ProductSpaceOperator-entry', 'ProductSpaceOperator.__getitem__', 'entry (1,0)',
+            lambda: odl.ProductSpaceOperator([[A, 0], [B, Sc]])[1, 0], sB)
+    yield d('via/getitem/ProductSpaceOperator-row', 'ProductSpaceOperator.__getitem__', 'row 0 with zero block',
+            lambda: odl.ProductSpaceOperator([[A, 0], [B, Sc]])[0],
+            ('blocks', 'red', PS2, S, [(0, 0, sA)]))
+    yield d('via/getitem/ProductSpaceOperator-row-heterogeneous', 'ProductSpaceOperator.__getitem__',
+            'row 0 with zero block range!=domain',
+            lambda: odl.ProductSpaceOperator(
+                [[odl.MatrixOperator(Mh, domain=S, range=R2), 0]],
+                domain=odl.ProductSpace(S, S), range=odl.ProductSpace(R2, 1))[0],
+            ('blocks', 'red', odl.ProductSpace(S, S), R2, [(0, 0, ('matrix', Mh, S, R2))]))
+    yield d('via/getitem/BroadcastOperator', 'BroadcastOperator.__getitem__', 'index 1',
+            lambda: odl.BroadcastOperator(A, B)[1], sB)
+    yield d('via/getitem/ReductionOperator', 'ReductionOperator.__getitem__', 'index 0',
+            lambda: odl.ReductionOperator(A, B)[0], sA)
+    yield d('via/getitem/DiagonalOperator', 'DiagonalOperator.__getitem__', 'index 1',
+            lambda: odl.DiagonalOperator(A, B)[1], sB)
+
+
+OPTION_STRATA = (
+    ['option/' + n for n in ('OperatorSum-tmp', 'OperatorComp-tmp', 'Gradient-range-only',
+                             'Divergence-domain-only', 'Sampling-single-nd-point',
+                             'Sampling-nested-1d', 'Sampling-int', 'Resizing-explicit-range',
+                             'Resizing-range-const-weight', 'Resizing-range-array-weight',
+                             'Resizing-nodes-on-bdry', 'Fourier-inverse-property',
+                             'Fourier-temporaries', 'Fourier-pyfftw', 'Fourier-pyfftw-plan',
+                             'Wavelet-nodes-on-bdry', 'Wavelet-odd-axis',
+                             'Wavelet-array-weighting')] +
+    ['validation/' + n for n in ('OperatorSum', 'OperatorComp', 'Gradient', 'Divergence',
+                                 'PointwiseInnerAdjoint', 'Sampling', 'Resizing',
+                                 'MatrixOperator', 'ProductSpaceOperator')])
+
+RAISED_AS_DOCUMENTED = 'raised-as-documented'
+
+
+def _must_raise(f, excs):
+    """the documented rejection of invalid construction arguments: the sentinel if `f` raises one
+    of `excs`; any other exception propagates (reported as construct-raises); an accepted input
+    is returned as a tuple (reported as not-an-operator)"""
+    try:
+        op = f()
+    except excs:
+        return RAISED_AS_DOCUMENTED
+    return ('ACCEPTED-INVALID-INPUT', repr(op)[:200])
+
+
+def option_cases(ctx, rng, mk):
+    """round 5 stream: construction OPTIONS and validation branches of the anchored classes that
+    no other stream reaches (measured by tools/covmap.py): temporaries of OperatorSum/Comp,
+    Gradient/Divergence given by the product space only, scalar / nested / single n-d sampling
+    points, ResizingOperator with an explicit (differently weighted, array weighted) range and
+    on nodes_on_bdry grids, Fourier transforms through `.inverse`, cached temporaries, the
+    pyfftw backend and FFTW plans, wavelets on nodes_on_bdry / odd-length / array-weighted
+    spaces: full adjoint oracle; invalid arguments must raise the documented error."""
+    odl = odl_()
+    from odl.operator import operator as opm
+    from odl.operator.tensor_ops import PointwiseInnerAdjoint
+    S = odl.rn(3, weighting=2.0)
+    M = rand_mat(rng, 3, 3)
+    v = rand_el(rng, S, nz=True)
+    A, B = odl.MatrixOperator(M, domain=S, range=S), odl.MultiplyOperator(v)
+    sA, sB = ('matrix', M, S, S), ('multiply', S, S, v)
+    D = odl.uniform_discr(0, 2, 4)
+    D2 = odl.uniform_discr([0, 0], [1, 1.5], (2, 3))
+    Db = odl.uniform_discr(0, 3, 4, nodes_on_bdry=True)
+    V = odl.ProductSpace(D2, 2)
+    Dbig = odl.uniform_discr(-1, 3, 8)
+    Dbig_w = odl.uniform_discr(-1, 3, 8, weighting=2.0)
+    Dbig_a = odl.uniform_discr(-1, 3, 8, weighting=np.array([1.0, 2, 4, 1, 2, 4, 1, 2]))
+    Cd = odl.uniform_discr(0, 4, 4, dtype='complex128')
+    Cd8 = odl.uniform_discr(-1, 1, 8, dtype='complex128')
+
+    def o(stratum, cls, opts, build, spec=None, approx=False):
+        ctx.hit('option/' + stratum)
+        return mk(cls, 'option ' + opts, build, spec, approx)
+
+    yield o('OperatorSum-tmp', 'OperatorSum', 'tmp_ran+tmp_dom',
+            lambda: opm.OperatorSum(A, B, S.element(), S.element()), ('sum', sA, sB))
+    yield o('OperatorComp-tmp', 'OperatorComp', 'tmp', lambda: opm.OperatorComp(A, B, S.element()),
+            ('comp', sA, sB))
+    yield o('Gradient-range-only', 'Gradient', 'range-only', lambda: odl.Gradient(range=V),
+            ('gradient', D2, V, 'forward', 'constant'))
+    yield o('Divergence-domain-only', 'Divergence', 'domain-only', lambda: odl.Divergence(domain=V),
+            ('divergence', D2, V, 'forward', 'constant'))
+    yield o('Sampling-single-nd-point', 'SamplingOperator', 'single-nd-point',
+            lambda: odl.SamplingOperator(D2, [1, 2]), ('sampling', D2, [[1], [2]], 'point_eval'))
+    yield o('Sampling-single-nd-point', 'WeightedSumSamplingOperator', 'single-nd-point',
+            lambda: odl.WeightedSumSamplingOperator(D2, [1, 2]), ('wsum', D2, [[1], [2]], 'char_fun'))
+    yield o('Sampling-nested-1d', 'SamplingOperator', 'nested-1d-list',
+            lambda: odl.SamplingOperator(D, [[0, 2]]), ('sampling', D, [0, 2], 'point_eval'))
+    yield o('Sampling-int', 'SamplingOperator', 'int-index',
+            lambda: odl.SamplingOperator(D, 2, 'integrate'), ('sampling', D, 2, 'integrate'))
+    for mode in ('constant', 'symmetric', 'order1'):
+        yield o('Resizing-explicit-range', 'ResizingOperator', 'explicit-range mode=' + mode,
+                lambda mode=mode: odl.ResizingOperator(D, Dbig, pad_mode=mode))
+        yield o('Resizing-range-const-weight', 'ResizingOperator', 'range-const-weight mode=' + mode,
+                lambda mode=mode: odl.ResizingOperator(D, Dbig_w, pad_mode=mode))
+        yield o('Resizing-range-const-weight', 'ResizingOperatorAdjoint', 'range-const-weight mode=' + mode,
+                lambda mode=mode: odl.ResizingOperator(D, Dbig_w, pad_mode=mode).adjoint)
+        yield o('Resizing-range-array-weight', 'ResizingOperator', 'range-array-weight mode=' + mode,
+                lambda mode=mode: odl.ResizingOperator(D, Dbig_a, pad_mode=mode))
+        yield o('Resizing-nodes-on-bdry', 'ResizingOperator', 'nodes-on-bdry extend mode=' + mode,
+                lambda mode=mode: odl.ResizingOperator(Db, ran_shp=(6,), pad_mode=mode))
+        yield o('Resizing-nodes-on-bdry', 'ResizingOperator', 'nodes-on-bdry shrink mode=' + mode,
+                lambda mode=mode: odl.ResizingOperator(Db, ran_shp=(3,), pad_mode=mode))
+    tr = odl.trafos
+
+    def ft_temp():
+        ft = tr.FourierTransform(Cd8)
+        ft.create_temporaries()
+        return ft
+
+    def ft_plan():
+        ft = tr.FourierTransform(Cd8, impl='pyfftw')
+        ft.init_fftw_plan()
+        return ft
+
+    def dft_plan():
+        ft = tr.DiscreteFourierTransform(Cd, impl='pyfftw')
+        ft.init_fftw_plan()
+        return ft
+    yield o('Fourier-inverse-property', 'DiscreteFourierTransformInverse', 'via inverse property',
+            lambda: tr.DiscreteFourierTransform(Cd).inverse, None, True)
+    yield o('Fourier-inverse-property', 'FourierTransformInverse', 'via inverse property',
+            lambda: tr.FourierTransform(Cd8).inverse, None, True)
+    yield o('Fourier-temporaries', 'FourierTransform', 'cached temporaries', ft_temp, None, True)
+    try:
+        import pyfftw  # noqa
+        have_fftw = True
+    except Exception:  # noqa
+        have_fftw = False
+    if have_fftw:
+        yield o('Fourier-pyfftw', 'FourierTransform', 'impl=pyfftw',
+                lambda: tr.FourierTransform(Cd8, impl='pyfftw'), None, True)
+        yield o('Fourier-pyfftw', 'DiscreteFourierTransform', 'impl=pyfftw',
+                lambda: tr.DiscreteFourierTransform(Cd, impl='pyfftw'), None, True)
+        yield o('Fourier-pyfftw-plan', 'FourierTransform', 'impl=pyfftw fftw-plan', ft_plan, None, True)
+        yield o('Fourier-pyfftw-plan', 'DiscreteFourierTransform', 'impl=pyfftw fftw-plan', dft_plan,
+                None, True)
+    else:
+        ctx.hit('option/Fourier-pyfftw')
+        ctx.hit('option/Fourier-pyfftw-plan')
+        ctx.notes.append('pyfftw not importable: the pyfftw strata are empty')
+    yield o('Wavelet-nodes-on-bdry', 'WaveletTransform', 'nodes-on-bdry wavelet=haar pad=pywt_periodic',
+            lambda: tr.WaveletTransform(odl.uniform_discr(0, 1, 8, nodes_on_bdry=True), 'haar',
+                                        pad_mode='pywt_periodic'), None, True)
+    yield o('Wavelet-odd-axis', 'WaveletTransform', 'odd-axis-7 wavelet=haar pad=pywt_periodic nlevels=1',
+            lambda: tr.WaveletTransform(odl.uniform_discr(0, 1, 7), 'haar', nlevels=1,
+                                        pad_mode='pywt_periodic'), None, True)
+    yield o('Wavelet-odd-axis', 'WaveletTransformInverse',
+            'odd-axis-7 wavelet=haar pad=pywt_periodic nlevels=1',
+            lambda: tr.WaveletTransform(odl.uniform_discr(0, 1, 7), 'haar', nlevels=1,
+                                        pad_mode='pywt_periodic').inverse, None, True)
+    yield o('Wavelet-array-weighting', 'WaveletTransform', 'array-weighting no-adjoint',
+            lambda: tr.WaveletTransform(odl.uniform_discr(0, 1, 4, weighting=np.array([1.0, 2, 1, 2])),
+                                        'haar', pad_mode='pywt_periodic'), None, True)
+
+    # --- invalid construction arguments: the documented error, never an operator
+    R2 = odl.rn(2)
+    A23 = odl.MatrixOperator(rand_mat(rng, 2, 3), domain=S, range=R2)
+    TE, VE = TypeError, ValueError
+    from odl.operator.operator import OpTypeError, OpRangeError, OpDomainError
+    bad = [
+        ('OperatorSum', 'range mismatch', lambda: opm.OperatorSum(A, A23), (OpTypeError,)),
+        ('OperatorSum', 'domain mismatch',
+         lambda: opm.OperatorSum(A23, odl.MatrixOperator(np.ones((2, 2)), domain=R2, range=R2)), (OpTypeError,)),
+        ('OperatorSum', 'tmp_ran outside range', lambda: opm.OperatorSum(A, B, R2.element()), (OpRangeError,)),
+        ('OperatorSum', 'tmp_dom outside domain',
+         lambda: opm.OperatorSum(A, B, None, R2.element()), (OpDomainError,)),
+        ('OperatorComp', 'range/domain mismatch', lambda: opm.OperatorComp(A23, A23), (OpTypeError,)),
+        ('Gradient', 'neither domain nor range', lambda: odl.Gradient(), (VE,)),
+        ('Gradient', 'range not a product space', lambda: odl.Gradient(D2, range=D2), (TE,)),
+        ('Gradient', 'range not a power space',
+         lambda: odl.Gradient(D2, range=odl.ProductSpace(D2, D)), (VE,)),
+        ('Gradient', 'domain not discretized', lambda: odl.Gradient(odl.rn(3)), (TE,)),
+        ('Divergence', 'neither domain nor range', lambda: odl.Divergence(), (VE,)),
+        ('Divergence', 'domain not a product space', lambda: odl.Divergence(domain=D2, range=D2), (TE,)),
+        ('Divergence', 'range not discretized', lambda: odl.Divergence(range=odl.rn(3)), (TE,)),
+        ('PointwiseInnerAdjoint', 'vfspace not a product space',
+         lambda: PointwiseInnerAdjoint(D2, V.one(), vfspace=D2), (TE,)),
+        ('PointwiseInnerAdjoint', 'base space mismatch',
+         lambda: PointwiseInnerAdjoint(D, V.one(), vfspace=V), (VE,)),
+        ('Sampling', 'variant not understood', lambda: odl.SamplingOperator(D, [0], 'nearest'), (VE,)),
+        ('Sampling', 'wsum variant not understood',
+         lambda: odl.WeightedSumSamplingOperator(D, [0], 'delta'), (VE,)),
+        ('Sampling', '2-d index array for 1-d space', lambda: odl.SamplingOperator(D, [[0, 1], [1, 2]]), (VE,)),
+        ('Sampling', 'nd points not a sequence', lambda: odl.SamplingOperator(D2, 1), (TE,)),
+        ('Resizing', 'neither range nor ran_shp', lambda: odl.ResizingOperator(D), (VE,)),
+        ('Resizing', 'ran_shp of wrong length', lambda: odl.ResizingOperator(D, ran_shp=(4, 4)), (VE,)),
+        ('Resizing', 'offset with explicit range', lambda: odl.ResizingOperator(D, Dbig, offset=(1,)), (VE,)),
+        ('Resizing', 'range and ran_shp', lambda: odl.ResizingOperator(D, Dbig, ran_shp=(8,)), (VE,)),
+        ('Resizing', 'domain not discretized', lambda: odl.ResizingOperator(odl.rn(3), ran_shp=(4,)), (TE,)),
+        ('Resizing', 'range with other cell sides',
+         lambda: odl.ResizingOperator(D, odl.uniform_discr(0, 8, 8)), (VE,)),
+        ('MatrixOperator', 'non-integer axis',
+         lambda: odl.MatrixOperator(np.ones((2, 2)), domain=odl.rn((2, 3)), axis=0.5), (VE, TE)),
+        ('MatrixOperator', 'matrix/domain shape mismatch',
+         lambda: odl.MatrixOperator(np.ones((2, 2)), domain=odl.rn(3)), (VE,)),
+        ('MatrixOperator', 'range shape mismatch',
+         lambda: odl.MatrixOperator(np.ones((2, 3)), domain=odl.rn(3), range=odl.rn(3)), (VE,)),
+        ('ProductSpaceOperator', 'inconsistent column domains',
+         lambda: odl.ProductSpaceOperator([[A], [A23 * odl.MatrixOperator(np.ones((3, 2)), domain=R2, range=S)]]),
+         (VE,)),
+    ]
+    for cls, name, f, excs in bad:
+        ctx.hit('validation/' + cls)
+        yield mk('Validation', '{} {}'.format(cls, name), lambda f=f, excs=excs: _must_raise(f, excs))
+
+
+EXPECTED_STRATA = EXPECTED_STRATA + DERIVED_STRATA + OPTION_STRATA
+
+
 def small_leaf(rng, dom, ran=None):
     """a random simple linear operator dom -> ran (ran defaults to dom) with a model spec"""
     odl = odl_()
@@ -1338,7 +1757,7 @@ def diff_cases(ctx, rng, mk):
             if not admits(S, pad, range(S.ndim)):
                 continue
             yield mk('Laplacian', 'space={} pad={}'.format(tag, pad),
-                     lambda S=S, pad=pad: odl.Laplacian(S, pad_mode=pad))
+                     lambda S=S, pad=pad: odl.Laplacian(S, pad_mode=pad), ('laplacian', S, pad))
     S = odl.uniform_discr([0, 0], [1.5, 2], (3, 4))
     V = odl.ProductSpace(S, 2, weighting=[1.0, 2.0])
     yield mk('Gradient', 'space=2d range-weighted=array method=forward pad=constant',
@@ -1696,6 +2115,11 @@ def emit(tb, spec):
         q = int(np.prod(S.shape[axis + 1:], dtype=int))
         t.append('pderiv;{};{};{};{};{};{}'.format(tb.sp(S), S.shape[axis], q, method, pad,
                                                  fs(float(S.cell_sides[axis]))))
+    elif k == 'laplacian':
+        # round 5: Laplacian = sum over the axes of (forward - backward)(dx^2), same pad mode
+        _, S, pad = spec
+        t.append('lap;{};{};{};{}'.format(tb.sp(S), ','.join(str(n) for n in S.shape), pad,
+                                          ','.join(fs(float(d)) for d in S.cell_sides)))
     elif k in ('gradient', 'divergence'):
         # round 4: Gradient / Divergence = block column / row of the partial derivatives
         # (`gradTree` / `divTree` of the model); V = the power space as the code built it
@@ -2240,6 +2664,8 @@ EXPECT_NOADJ = {
     r'^class=(PowerOperator opts=gate exponent=2|OperatorVectorSum opts=gate affine|UfuncOperator opts=gate sin|PointwiseNorm opts=gate nonlinear|ComplexModulus opts=gate nonlinear)$':
         'noadjoint:OpNotImplementedError',
     r'^class=ConstantOperator opts=gate nonzero constant$': 'noadjoint:None',
+    r'^class=Operator\.__(radd|rsub|add)__ opts=affine \S+$': 'noadjoint:OpNotImplementedError',
+    r'^class=WaveletTransform opts=option array-weighting no-adjoint$': 'noadjoint:OpNotImplementedError',
 }
 
 
@@ -2287,6 +2713,18 @@ def run_zoo(ctx, zseed, batch, only_key=None, count=True):
                                   type(e).__name__, str(e)[:200]),
                               {'kind': 'zoo', 'key': key, 'zseed': zseed, 'tier': ctx.tier,
                                'fail': 'construct-raises'})
+            continue
+        if isinstance(A, str) and A == RAISED_AS_DOCUMENTED:
+            if count:
+                ctx.case(None)
+            continue
+        if not (hasattr(A, 'domain') and hasattr(A, 'range') and callable(A)):
+            # a derived-operator expression (`__getitem__`, `.inverse`, ...) returned something that
+            # is not an operator
+            ctx.violation(key + ' fail=not-an-operator',
+                          'the expression returned {!r} instead of an operator'.format(A)[:300],
+                          {'kind': 'zoo', 'key': key, 'zseed': zseed, 'tier': ctx.tier,
+                           'fail': 'not-an-operator'})
             continue
         classes.setdefault(c.cls, [0, 0])[0] += 1
         if count:
@@ -2371,7 +2809,7 @@ def run(ctx):
         'functionals (ScalingFunctional/IdentityFunctional/ZeroFunctional are in the zoo); '
         'PointwiseInnerBase is abstract')
     ctx.extra['classes_tested_only(opaque leaves, no executable model)'] = sorted(
-        c for c in covered if c in ('Laplacian',
+        c for c in covered if c in (
                                     'ResizingOperator', 'ResizingOperatorAdjoint') or c in APPROX)
     n_trees = 300 if ctx.quick else 6000
     run_trees(ctx, n_trees, 3 if ctx.quick else 4, batch)
@@ -2382,7 +2820,7 @@ def run(ctx):
                 'flv', 'blocks/pso', 'blocks/bcast', 'blocks/red', 'blocks/diag', 'nonlin',
                 'opaque', 'sampling-nd', 'wsum-nd', 'flatten-F', 'flatteninv-F',
                 'matrixaxis/const', 'matrixaxis/bare-transpose', 'partialderiv',
-                'gradient', 'divergence'}
+                'gradient', 'divergence', 'laplacian'}
     unhit = sorted(b for b in expected if 'model/' + b not in ctx.branches)
     unhit += sorted(b for b in EXPECTED_STRATA if b not in ctx.branches)
     ctx.extra['unhit_model_branches'] = unhit
